@@ -434,6 +434,11 @@ class Buildable(Generic[T], metaclass=abc.ABCMeta):
     else:
       if key < 0:
         key += len(all_positional_args)
+      if not 0 <= key < len(all_positional_args):
+        raise IndexError(
+            f'Cannot delete positional argument with index {key}'
+            ' (index out of range).'
+        )
       indices = [key]
 
     old_placeholders = [
